@@ -25,6 +25,7 @@ MODEL = {
         "id": {"type": "ID"}, "name": {"type": "String"}, "age": {"type": "Int!"}, "friends": {"type": "[User]"}, "best": {"type": "User"},
         "role": {"type": "Role"}, "pet": {"type": "Pet"}, "tags": {"type": "[String!]"},
         "score": {"type": "Int", "args": {"scale": {"type": "Int", "default": 1}}},
+        "scaled": {"type": "Int", "args": {"by": {"type": "Int!"}}},
     }},
     "Animal": {"kind": "interface", "fields": {"name": {"type": "String"}, "owner": {"type": "User"}}},
     "Dog": {"kind": "object", "interfaces": ["Node", "Animal"], "fields": {"id": {"type": "ID"}, "name": {"type": "String"}, "barks": {"type": "Boolean"}, "owner": {"type": "User"}}},
@@ -41,6 +42,7 @@ FNS = {
     ("Query", "node"): lambda root, args: (root["me"] if not args.get("kind") else (root["pets"] or [None])[0]),
     ("User", "score"): lambda root, args: None if args.get("scale") is None else root["base_score"] * args["scale"],
     ("Mutation", "bump"): lambda root, args: args["by"] + 1,
+    ("User", "scaled"): lambda root, args: root["base_score"] * args["by"],
 }
 
 
@@ -153,5 +155,8 @@ TEMPLATES = (
     ("mutation { bump(by: 2) me { name } second: bump(by: 5) }", {}),
     ("query A { n } query B { me { name } }", {}),
     ("{ __typename me { __typename pet { __typename } } }", {}),
+    # execution-time argument coercion failure (null for a non-null argument through a nullable variable with a default) on a field node that is
+    # resolved several times: list items, two parents of one fragment
+    ("query ($n: Int = 2) { users { name scaled(by: $n) } me { best { scaled(by: $n) } ...S friends { ...S } } } fragment S on User { s2: scaled(by: $n) }", {"n": None}),
 )
 OPNAMES = {18: "B"}
